@@ -8,11 +8,12 @@ KERNEL_NOTE = ('Trusted: Lean kernel; axioms propext/Classical.choice/Quot.sound
                'exact field arithmetic (IEEE rounding not modelled).')
 CHECKS = {
  'C08': {
-  'text': 'Proof (full for the conservation clauses; conditional on the run returning): for a Hermitian MPO and purely imaginary dt, single-site TDVP and two-site TDVP with tol_split = 0 keep norm 1 and the '
+  'text': 'Proof (full for single-site incl. totality; two-site conditional on the run returning): for a Hermitian MPO and purely imaginary dt, single-site TDVP and two-site TDVP with tol_split = 0 keep norm 1 and the '
           'energy of the normalised input for any number of steps and any number of Krylov iterations (mixed-canonical sweep invariant with environment blocks = C04 partial contractions; local Lanczos-'
           'exponential steps preserve norm and <x,H_eff x>; QR / zero-tolerance split steps are pure gauge); both return the norm of the input; single-site TDVP never increases a bond; qd / site count kept '
-          '(17 theorems). Block sparsity and boundary charges of the evolved state are proved in C02 (tdvp1_wf, tdvp2_wf, boundary_kept_tdvp*). Non-mutation of H is trivial in a functional model and is '
-          'carried by the exact correspondence of whole calls (H snapshot); totality is observed, not proved.',
+          'Single-site TDVP is proved to RETURN on every admissible input under the contracts (tdvp1_total; hypotheses: H well formed, EvoCompat, trailing MPO bond charge 0, numiter >= 1) '
+          '(20 theorems). Block sparsity and boundary charges of the evolved state are proved in C02 (tdvp1_wf, tdvp2_wf, boundary_kept_tdvp*). Non-mutation of H is trivial in a functional model and is '
+          'carried by the exact correspondence of whole calls (H snapshot); totality of the two-site integrator is observed, not proved.',
   'note': KERNEL_NOTE + ' QRKernel, SVDContract/NormContract/SortContract (two-site), NormContract + EighAt per Krylov run, |dexp(i x)| = 1 are assumptions about NumPy/SciPy.',
   'design_ref': 'DESIGN.md §7 C08/C09/C10',
  },
@@ -27,9 +28,9 @@ CHECKS = {
   'design_ref': 'DESIGN.md §7 C08/C09/C10',
  },
  'C10': {
-  'text': 'Proof (partial, conditional on the run returning): single-site DMRG and two-site DMRG with tol_split = 0 (L >= 2, any sweeps / Lanczos iterations): the returned state is normalised, its energy '
+  'text': 'Proof (partial): single-site DMRG (proved to return on every admissible input: dmrg1_total) and two-site DMRG with tol_split = 0 (conditional on the run returning) (L >= 2, any sweeps / Lanczos iterations): the returned state is normalised, its energy '
           'equals the last reported energy, every reported energy is >= every lower bound of the dense operator and <= the energy of the normalised start, and the reported sequence is non-increasing '
-          '(9 theorems). Not proved: the bound by the ground-state energy of the quantum-number sector only (proved for bounds of the whole operator), exactness on a complete manifold, two-site with '
+          '(12 theorems). Not proved: the bound by the ground-state energy of the quantum-number sector only (proved for bounds of the whole operator), exactness on a complete manifold, two-site with '
           'tol_split > 0; carried by the exact correspondence of whole calls and the oracle.',
   'note': KERNEL_NOTE + ' QRKernel, SVD/norm/sort contracts (two-site), NormContract, EighAt are assumptions about NumPy/SciPy.',
   'design_ref': 'DESIGN.md §7 C08/C09/C10',
@@ -125,11 +126,12 @@ CHECKS = {
   'design_ref': 'DESIGN.md §7 C14/C15',
  },
  'C15': {
-  'text': 'Proof (partial): lowest Ritz value <= Rayleigh quotient of the start vector and >= every lower bound of the quadratic form; Ritz vectors orthonormal with Ritz values as Rayleigh '
-          'quotients; Hermitian Krylov exponential with imaginary time preserves the norm; with an exactly vanishing last residual the Ritz pairs are exact eigenpairs and the lowest one is the '
-          'smallest eigenvalue reachable from the start vector; Hermitian-branch exponential exact in spectral form (expm_exact_partial). Not proved: general (Arnoldi/expm) branch exactness and '
-          'identification with the power-series exponential (oracle + correspondence only).',
-  'note': KERNEL_NOTE + ' EighAt/ExpContract are assumptions about scipy eigh_tridiagonal / np.exp.',
+  'text': 'Proof (full in exact arithmetic): lowest Ritz value <= Rayleigh quotient of the start vector and >= every lower bound of the quadratic form; Ritz vectors orthonormal with Ritz values as Rayleigh '
+          'quotients; Hermitian Krylov exponential with imaginary time preserves the norm; once the Krylov space is exhausted (exactly vanishing last residual) the Ritz pairs are exact eigenpairs, the lowest '
+          'one is the smallest eigenvalue reachable from the start vector, p(A)v = |v| V p(T) e1 for every polynomial, and the exponential is exact in both branches: Hermitian branch = NormedSpace.exp(dt A) v '
+          'for dexp = exp, general branch = expm(dt A) v under the intertwining contract of expm (satisfied by the power-series exponential) (15 theorems). Outside the model: the floating-point threshold '
+          'test ends the iteration on small non-zero residuals (approximation, no error bound).',
+  'note': KERNEL_NOTE + ' EighAt, dexp = exp, ExpmContract / ExpmExact are assumptions about scipy eigh_tridiagonal, np.exp, scipy expm.',
   'design_ref': 'DESIGN.md §7 C14/C15',
  },
  'C01': {
